@@ -92,6 +92,9 @@ class Subs:
     def some(self, pred):
         return z_or(*[p.exists(lambda k, e: pred(e)) for p in self.letter_pieces(self.L)])
 
+    def all_positions(self, pred):
+        return z_and(*[p.forall(lambda k, e: pred(e)) for p in self.letter_pieces(self.L)])
+
     def unique(self, pred):
         ps = self.letter_pieces(self.L)
         out = []
@@ -114,6 +117,14 @@ class Subs:
 
 def finding_open(ck, fid):
     return any(f.get('id') == fid and f.get('status') == 'open' and f.get('property') == ck.prop for f in ck.findings)
+
+
+def pure(obs, n0):
+    """a lemma about the inputs alone: keep only the hypotheses that were there before the code ran (dropping
+    hypotheses is always sound; it spares the solver the irrelevant path condition)"""
+    for ob in obs:
+        ob.hyps = ob.hyps[:n0]
+    return obs
 
 
 def swap(c, f, x):
@@ -195,6 +206,7 @@ def _build(ck):
         S.oracle = {'name': 'subscripts'}
         G = Subs(S)
         L, R, Sr, nL, nR, nS = G.L, G.R, G.Sr, G.nL, G.nR, G.nS
+        n0 = len(S.run.axioms) + len(S.run.pc)
         out = S.call(S.func(f'{CLS}._get_transposed_subscripts'), [G.s])
         c0, f0 = z3.Int('c0'), z3.Int('f0')
         x, y = fresh_int('x'), fresh_int('y')
@@ -204,7 +216,14 @@ def _build(ck):
         if out.raised('ValueError'):
             # completeness: a refusal means that no rewriting of the stated form exists (c0, f0 generic)
             S.assume(G.result_labels_distinct())
-            S.oblige('exc', z3.Implies(z3.And(G.contracted(c0), G.free(f0), uniq_c, uniq_f), z3.Not(relabels)),
+            ante = z3.And(G.contracted(c0), G.free(f0), uniq_c, uniq_f)
+            # two steps (cut): under the antecedent every contracted (free) letter of L *is* c0 (f0); with that the
+            # refusal contradicts sigma(S) = R
+            only_c0 = G.all_positions(lambda e: z3.Implies(G.contracted(e), to_z3(e) == c0))
+            only_f0 = G.all_positions(lambda e: z3.Implies(G.free(e), to_z3(e) == f0))
+            pure(S.oblige('exc', z3.Implies(ante, only_c0), tag='completeness-step1:contracted-letters-of-L-are-c0'), n0)
+            pure(S.oblige('exc', z3.Implies(ante, only_f0), tag='completeness-step1:free-letters-of-L-are-f0'), n0)
+            S.oblige('exc', z3.Implies(z3.And(ante, only_c0, only_f0), z3.Not(relabels)),
                      tag='refuses-only-when-no-single-contracted/free-letter-rewriting-exists')
             return
         if not out.normal:
